@@ -26,7 +26,7 @@ SYSTEMS = ["triclinic", "monoclinic", "orthorhombic", "rhombohedral", "tetragona
 def run(run):
     run.assume("S-REAL", "S-PY", "S-NUMPY", "S-NUMBA", "A-POOL", "A-SCIPY-Q")
     run.level_override = "other"
-    for f in (table_facets, quat_facets, operator_facets, angles_facets, index_formula, batched_facets):
+    for f in (table_facets, quat_facets, operator_facets, angles_facets, hist_glue, index_formula, batched_facets):
         try:
             f(run)
         except E.UNSUPPORTED_EXC as e:
@@ -173,6 +173,81 @@ def angles_facets(run):
     except ValueError:
         okv = True
     run.exact("misorientation_angles: unequal leading lengths raise ValueError", fn, okv, "")
+
+
+def hist_glue(run):
+    """misorientation_hist under the contracts of its callees: ONE density histogram with theta_max unit bins on [0, theta_max]
+    of misorientation_angles(q1, q2), where the rows of (q1, q2) are exactly the unordered grain pairs, each with every symmetry
+    operator applied to both members.  Another call structure (several histogram calls, ...) is undecided, not a violation:
+    the bounded stand-in compares values against the histogram of all pair angles instead."""
+    import itertools
+
+    ST = real_module("pydrex.stats")
+    GM = real_module("pydrex.geometry")
+    UT = real_module("pydrex.utils")
+    from scipy.spatial.transform import Rotation as R
+
+    fn = "pydrex.stats.misorientation_hist"
+    for system in GM.LatticeSystem:
+        for N in (2, 5):
+            O = R.random(N, random_state=11 + N).as_matrix()
+            ang_calls, hist_calls = [], []
+            sentinel = object()
+
+            class GeoProxy:
+                def __getattr__(s_, k):
+                    return getattr(GM, k)
+
+                @staticmethod
+                def misorientation_angles(q1, q2):
+                    ang_calls.append((np.array(q1, dtype=float), np.array(q2, dtype=float)))
+                    return np.arange(len(q1), dtype=float) + 1000.0 * len(ang_calls)
+
+            class NPProxy:
+                def __getattr__(s_, k):
+                    return getattr(np, k)
+
+                @staticmethod
+                def histogram(data, bins=10, range=None, density=None, weights=None):
+                    hist_calls.append((np.array(data), bins, range, density, weights))
+                    return sentinel
+
+            g = dict(ST.__dict__)
+            g.update(np=NPProxy(), _geo=GeoProxy())
+            f = E.rebind_function(ST.misorientation_hist, g)
+            out = f(O, system)
+            tag = f"misorientation_hist[{system.name}, {N} grains]"
+            if len(hist_calls) != 1 or len(ang_calls) != 1 or out is not sentinel:
+                run.undecided(tag, fn, f"call structure differs from the contract's ({len(ang_calls)} angle evaluations, {len(hist_calls)} histograms): values are compared in the bounded stand-in")
+                continue
+            data, bins, rng_, density, weights = hist_calls[0]
+            th = ST._max_misorientation(system)
+            ok_h = np.array_equal(data, np.arange(len(ang_calls[0][0]), dtype=float) + 1000.0) and bins == th and tuple(rng_) == (0, th) and density is True and weights is None
+            q = R.from_matrix(O.copy()).as_quat()
+            ops = GM.symmetry_operations(system)
+            want = []
+            for i, j in itertools.combinations(range(N), 2):
+                rows = []
+                for qs in ops:
+                    if qs.shape == (4, 4):
+                        rows.append((qs @ q[i], qs @ q[j]))
+                    else:
+                        rows.append((UT.quat_product(qs, q[i]), UT.quat_product(qs, q[j])))
+                want.append(rows)
+            q1, q2 = ang_calls[0]
+            ok_p = q1.shape == (len(want), len(ops), 4) and q2.shape == q1.shape
+            if ok_p:
+                used = set()
+                for k in range(len(want)):
+                    hit = [w for w in range(len(want)) if w not in used and (
+                        (np.allclose(q1[k], [r[0] for r in want[w]], atol=1e-6) and np.allclose(q2[k], [r[1] for r in want[w]], atol=1e-6))
+                        or (np.allclose(q1[k], [r[1] for r in want[w]], atol=1e-6) and np.allclose(q2[k], [r[0] for r in want[w]], atol=1e-6)))]
+                    if not hit:
+                        ok_p = False
+                        break
+                    used.add(hit[0])
+            run.exact(f"{tag}: one density histogram, theta_max unit bins on [0, theta_max], of the angles of the pair arrays", fn, bool(ok_h), f"bins={bins} range={rng_} density={density}")
+            run.exact(f"{tag}: the pair arrays hold every unordered grain pair once, every symmetry operator applied to both members", fn, bool(ok_p), f"{q1.shape[0]} rows for {len(want)} pairs x {len(ops)} operators")
 
 
 def index_formula(run):
@@ -378,6 +453,9 @@ def nat_sweep(seed, count):
                 continue
             if not (-1e-9 <= m <= 1 + 1e-3):
                 msgs.append(f"{name}: M-index {m:.4f} outside [0, 1]")
+            msgs.extend(_hist_vs_reference(O, s, name))
+            if it == 0 and (seed % 4 == 0 or count > 3):
+                msgs.extend(_large_aggregate(rng, name if name in ("triclinic", "monoclinic") else "triclinic"))
             perm = rng.permutation(n)
             if abs(float(D.misorientation_index(O[perm], s)) - m) > 1e-9:
                 msgs.append(f"{name}: M-index depends on the order of the grains")
@@ -422,6 +500,50 @@ def nat_sweep(seed, count):
         if msgs:
             fails.append(dict(case=f"{seed}.{it}", checker="contracts.C14:nat_case", inputs=dict(seed=int(seed), it=it, count=count), what="; ".join(msgs[:3])))
     return dict(evaluations=ev, failures=fails[:5])
+
+
+def _hist_vs_reference(O, s, name):
+    """misorientation_hist == density histogram (1 degree bins on [0, theta_max]) of the misorientation angles of ALL unordered
+    grain pairs, assembled here from the real callees (symmetry_operations, quat_product, misorientation_angles)."""
+    import itertools as it_
+
+    from pydrex import geometry as g, stats as st, utils as u
+    from scipy.spatial.transform import Rotation as R
+
+    ops = g.symmetry_operations(s)
+    q = R.from_matrix(O.copy()).as_quat()
+    pairs = list(it_.combinations(range(len(q)), 2))
+    q1 = np.empty((len(pairs), len(ops), 4), dtype=np.float32)
+    q2 = np.empty_like(q1)
+    for k, (i, j) in enumerate(pairs):
+        for c, qs in enumerate(ops):
+            if qs.shape == (4, 4):
+                q1[k, c], q2[k, c] = qs @ q[i], qs @ q[j]
+            else:
+                q1[k, c], q2[k, c] = u.quat_product(qs, q[i]), u.quat_product(qs, q[j])
+    th = st._max_misorientation(s)
+    ref = np.histogram(g.misorientation_angles(q1, q2), bins=th, range=(0, th), density=True)[0]
+    got = st.misorientation_hist(O, s)[0]
+    if got.shape != ref.shape or not np.allclose(got, ref, rtol=0, atol=1e-12, equal_nan=True):
+        return [f"{name}: misorientation_hist of {len(q)} grains differs from the density histogram of all {len(pairs)} pair angles (max difference {np.nanmax(np.abs(got - ref)) if got.shape == ref.shape else 'shape'})"]
+    return []
+
+
+def _large_aggregate(rng, name):
+    """An aggregate of several hundred grains (a tight cluster appended to a random texture): same checks at a size where
+    chunked / blocked evaluation would matter."""
+    from pydrex import diagnostics as D, geometry as g
+    from scipy.spatial.transform import Rotation as R
+
+    s = getattr(g.LatticeSystem, name)
+    n = int(rng.integers(726, 780))
+    O = np.concatenate([R.random(n - 26, random_state=int(rng.integers(1 << 30))).as_matrix(), np.array([R.random(random_state=3).as_matrix()] * 26)])
+    out = _hist_vs_reference(O, s, name + f" (n={n})")
+    m = float(D.misorientation_index(O, s))
+    m2 = float(D.misorientation_index(O[rng.permutation(n)], s))
+    if abs(m - m2) > 1e-9:
+        out.append(f"{name}: M-index of {n} grains depends on the order of the grains ({m:.4f} vs {m2:.4f})")
+    return out
 
 
 _FRESH = {}
